@@ -53,6 +53,10 @@ func pairBs() []pairB {
 		{"Resp(id0)", func(r *rig) { r.deliver(seqTID(0), response(seqTID(0), "pair-B"), true) }},
 		{"Tick(past all)", func(r *rig) { r.tickAt(r.w.VNow() + int64(200*time.Second)) }},
 		{"Close", func(r *rig) { _ = r.close() }},
+		{"Resp(id0)+Start(id0)", func(r *rig) { // the first transaction completes and the same id is started again
+			r.deliver(seqTID(0), response(seqTID(0), "pair-B-restart"), true)
+			_ = r.start(r.newTx("Start", seqTID(0), 44))
+		}},
 		{"Do(id1)+Resp(id1)", func(r *rig) {
 			t := r.newTx("Do", seqTID(1), 32)
 			done := make(chan struct{})
